@@ -1,15 +1,19 @@
 /-
   C18 line-protocol driver.  Doubles travel as decimal 64-bit patterns.
-    rel <n> a… <m> b…            -> r <lt><eq><gt><ge><le><ne><dom a b><dom b a>   | nan
-    mm <n> a… accA <m> b… accB   -> r <0|1>                                        | nan
+    rel <n> a… <m> b…            -> r <lt><eq><gt><ge><le><ne><dom a b><dom b a>   | nan | fault
+    mm <n> a… accA <m> b… accB   -> r <0|1>                                        | nan | fault
     add|sub|mul <n> a… <m> b…    -> v <k> bits…                                    | fault
     divs|muls <n> a… v           -> v <k> bits…
     abs|sqrt|round <n> a…        -> v <k> bits…
     combine <n> a… <m> b…        -> v <k> bits…
     dist <n> a… <m> b…           -> s bits                                         | fault
-    table                        -> the derivation table extracted from the AST
-  Comparisons use the GENERATED operator definitions with `key := dkey`; vectors that
-  contain a NaN are outside the property (`nan`).  Every NaN result is printed as `nan`.
+    aeq <n> a… <m> b… e          -> r <0|1>                                        | fault
+    isfinite|isnan|issmall|isnonneg <n> a…   -> r <0|1>
+    show <n> a…                  -> t (#bits, #bits, …)     (`#bits` stands for `os << double`)
+    table                        -> the translated functions
+  Every answer is computed by the GENERATED bodies (GenOps.lean): comparisons with
+  `keyCmp dkey` (vectors that contain a NaN are outside the property: `nan`), everything else
+  with the hardware comparisons / arithmetic.  Every NaN result is printed as `nan`.
 -/
 import Vita.C18.Model
 import Vita.C18.GenOps
@@ -30,9 +34,23 @@ def showVec (v : List Float) : String :=
 
 def fl (v : List UInt64) : List Float := v.map Float.ofBits
 
+def kc : Cmp UInt64 := keyCmp dkey (fun a b => a == b)
+/-- the arithmetic is irrelevant for the comparison code (and must be: the laws hold for every `FOps`) -/
+def ko : FOps UInt64 :=
+  { add := fun a _ => a, sub := fun a _ => a, mul := fun a _ => a, div := fun a _ => a, abs := id, sqrt := id,
+    round := id, isfinite := fun _ => true, isnan := isNaNBits, lit := id }
+
+def showB : Option Bool → String
+  | some b => b2c b
+  | none => "f"
+
+def showOV : Option (List Float) → String
+  | some r => showVec r
+  | none => "fault"
+
 def answer (line : String) : String :=
   match line.trimAscii.toString.splitOn " " with
-  | "table" :: _ => "; ".intercalate (Gen.table.map (fun p => p.1 ++ " := " ++ p.2))
+  | "table" :: _ => "; ".intercalate (Gen.functions.map (fun p => p.1 ++ " := " ++ p.2))
   | cmd :: rest =>
     match rest.mapM (fun t => t.toNat?.bind (fun n => if n < 18446744073709551616 then some (UInt64.ofNat n) else none)) with
     | none => "bad-op"
@@ -44,9 +62,10 @@ def answer (line : String) : String :=
           match takeVec r1 with
           | some (b, []) =>
             if (a ++ b).any isNaNBits then "nan" else
-            "r " ++ b2c (Gen.opLt dkey a b) ++ b2c (Gen.opEq dkey a b) ++ b2c (Gen.opGt dkey a b)
-              ++ b2c (Gen.opGe dkey a b) ++ b2c (Gen.opLe dkey a b) ++ b2c (Gen.opNe dkey a b)
-              ++ b2c (dominating dkey a b) ++ b2c (dominating dkey b a)
+            let r := showB (Gen.opLt kc ko a b) ++ showB (Gen.opEq kc ko a b) ++ showB (Gen.opGt kc ko a b)
+              ++ showB (Gen.opGe kc ko a b) ++ showB (Gen.opLe kc ko a b) ++ showB (Gen.opNe kc ko a b)
+              ++ showB (Gen.dominating kc ko a b) ++ showB (Gen.dominating kc ko b a)
+            if r.contains 'f' then "fault " ++ r else "r " ++ r
           | _ => "bad-op"
         | none => "bad-op"
       | "mm" =>
@@ -55,7 +74,9 @@ def answer (line : String) : String :=
           match takeVec r1 with
           | some (b, [accB]) =>
             if (accA :: accB :: a ++ b).any isNaNBits then "nan" else
-            "r " ++ b2c (Gen.mmGe dkey ⟨a, accA⟩ ⟨b, accB⟩)
+            match Gen.mmGe kc ko ⟨a, accA⟩ ⟨b, accB⟩ with
+            | some r => "r " ++ b2c r
+            | none => "fault"
           | _ => "bad-op"
         | _ => "bad-op"
       | "add" | "sub" | "mul" | "combine" | "dist" =>
@@ -66,25 +87,54 @@ def answer (line : String) : String :=
             let fa := fl a
             let fb := fl b
             match cmd with
-            | "add" => match vadd floatOps fa fb with | some r => showVec r | none => "fault"
-            | "sub" => match vsub floatOps fa fb with | some r => showVec r | none => "fault"
-            | "mul" => match vmul floatOps fa fb with | some r => showVec r | none => "fault"
-            | "combine" => showVec (combine fa fb)
-            | _ => match distance floatOps fa fb with | some r => "s " ++ showF r | none => "fault"
+            | "add" => showOV (Gen.opAdd floatCmp floatOps fa fb)
+            | "sub" => showOV (Gen.opSub floatCmp floatOps fa fb)
+            | "mul" => showOV (Gen.opMul floatCmp floatOps fa fb)
+            | "combine" => showOV (Gen.combine floatCmp floatOps fa fb)
+            | _ => match Gen.distance floatCmp floatOps fa fb with | some r => "s " ++ showF r | none => "fault"
           | _ => "bad-op"
         | none => "bad-op"
       | "divs" | "muls" =>
         match takeVec xs with
         | some (a, [v]) =>
-          if cmd == "divs" then showVec (vdivS floatOps (fl a) (Float.ofBits v))
-          else showVec (vmulS floatOps (fl a) (Float.ofBits v))
+          if cmd == "divs" then showOV (Gen.opDivS floatCmp floatOps (fl a) (Float.ofBits v))
+          else showOV (Gen.opMulS floatCmp floatOps (fl a) (Float.ofBits v))
         | _ => "bad-op"
       | "abs" | "sqrt" | "round" =>
         match takeVec xs with
         | some (a, []) =>
-          if cmd == "abs" then showVec (vabs floatOps (fl a))
-          else if cmd == "sqrt" then showVec (vsqrt floatOps (fl a))
-          else showVec (vround floatOps (fl a))
+          if cmd == "abs" then showOV (Gen.abs floatCmp floatOps (fl a))
+          else if cmd == "sqrt" then showOV (Gen.sqrt floatCmp floatOps (fl a))
+          else showOV (Gen.roundTo floatCmp floatOps (fl a))
+        | _ => "bad-op"
+      | "aeq" =>
+        match takeVec xs with
+        | some (a, r1) =>
+          match takeVec r1 with
+          | some (b, [e]) =>
+            match Gen.almostEqual floatCmp floatOps (fl a) (fl b) (Float.ofBits e) with
+            | some r => "r " ++ b2c r
+            | none => "fault"
+          | _ => "bad-op"
+        | none => "bad-op"
+      | "isfinite" | "isnan" | "issmall" | "isnonneg" =>
+        match takeVec xs with
+        | some (a, []) =>
+          let r := if cmd == "isfinite" then Gen.isfinite floatCmp floatOps (fl a)
+            else if cmd == "isnan" then Gen.isnan floatCmp floatOps (fl a)
+            else if cmd == "issmall" then Gen.issmall floatCmp floatOps (fl a)
+            else Gen.isnonnegative floatCmp floatOps (fl a)
+          match r with
+          | some r => "r " ++ b2c r
+          | none => "fault"
+        | _ => "bad-op"
+      | "show" =>
+        match takeVec xs with
+        | some (a, []) =>
+          -- on the patterns themselves (`Float.toBits` would canonicalise the sign of a NaN)
+          match Gen.showFit kc ko (fun x => "#" ++ toString x.toNat) a with
+          | some r => "t " ++ r
+          | none => "fault"
         | _ => "bad-op"
       | _ => "bad-op"
   | _ => "bad-op"
